@@ -1321,3 +1321,12 @@ Proof.
   rewrite (root_args_same p o' o0 f0 (producer_unique p o' f0 Hnd Hf Ho') (producer_unique p o0 f0 Hnd Hf Ho0)) in Hra'.
   rewrite Hra in Hra'. injection Hra' as <-. exact Hk.
 Qed.
+
+(* Pipeline.run validates its keywords before anything else (Pipe.run_precheck); when it passes, the call is `crun` *)
+Lemma crun_checked_pass body pick {C} (P : policy C) legacy use p c o kw full :
+  run_precheck p o kw = Ok tt ->
+  crun_checked body pick P legacy use p c o kw full = crun body pick P legacy use p c o kw full.
+Proof. unfold crun_checked. now intros ->. Qed.
+Lemma crun_checked_reject body pick {C} (P : policy C) legacy use p c o kw full e :
+  run_precheck p o kw = Err e -> crun_checked body pick P legacy use p c o kw full = (Err e, [], c).
+Proof. unfold crun_checked. now intros ->. Qed.
